@@ -285,6 +285,9 @@ func (s *fsm13) prepare(ctx context.Context, conn Conn) (nextState State, err er
 	if err = notifyAlert(ctx, conn, dtlsAlert, err); err != nil {
 		return StateErrored, err
 	}
+	if vtrace.Enabled {
+		pkts, _ = vtrace.Filter(s.cfg, "flight", pkts).([]*dtlsflight.Packet)
+	}
 
 	s.flights = pkts
 	s.prepareFlightACKTracking(s.flights, s.retransmit)
